@@ -34,6 +34,7 @@ type abruptPt struct {
 }
 
 type outcome struct {
+	dead bool // may legitimately be unreachable (a deferred call "panicking" while nothing is recovered)
 	cond string
 	st   *State
 	pv   *Val // nil: not panicking
@@ -129,7 +130,12 @@ func and2(a, b string) string {
 
 // addAbrupt records an abrupt exit at the current point.
 func (ex *Exec) addAbrupt(cond string, st *State, pv Val, pos token.Pos) {
-	// the deferred calls registered on the way here: those whose defer statement dominates this point
+	ex.abrupts = append(ex.abrupts, abruptPt{cond: cond, st: st, pv: pv, ndefers: ex.applicableDefers(), pos: pos})
+}
+
+// applicableDefers: how many of the deferred calls seen so far are registered on the way to the
+// current point: those whose defer statement dominates it.
+func (ex *Exec) applicableDefers() int {
 	n := 0
 	for _, d := range ex.deferred {
 		if ex.realBlk == nil || d.Block() == ex.realBlk || d.Block().Dominates(ex.realBlk) {
@@ -138,7 +144,7 @@ func (ex *Exec) addAbrupt(cond string, st *State, pv Val, pos token.Pos) {
 			break
 		}
 	}
-	ex.abrupts = append(ex.abrupts, abruptPt{cond: cond, st: st, pv: pv, ndefers: n, pos: pos})
+	return n
 }
 
 func (ex *Exec) freshPayload() Val {
@@ -232,7 +238,12 @@ func (ex *Exec) mergeOutcomes(os []outcome) []outcome {
 			conds = append(conds, o.cond)
 			states = append(states, o.st)
 		}
-		m := outcome{cond: ex.e.define("unw", "Bool", "(or "+joinSp(conds)+")"), st: mergeStates(ex.e, conds, states)}
+		m := outcome{cond: ex.e.define("unw", "Bool", "(or "+joinSp(conds)+")"), st: mergeStates(ex.e, conds, states), dead: true}
+		for _, o := range g {
+			if !o.dead {
+				m.dead = false
+			}
+		}
 		if panicking {
 			acc := *g[len(g)-1].pv
 			for k := len(g) - 2; k >= 0; k-- {
@@ -357,7 +368,8 @@ func (ex *Exec) runDeferred(d *ssa.Defer, cond string, st *State, pv *Val) []out
 				ex.assumeHere(ex.clauseTerm(cl, m, post, st, false))
 			}
 		})
-		outs = append(outs, outcome{cond: ncond, st: post, pv: after(pv)})
+		// a recovering function that is given a panic may well never return normally (it re-panics)
+		outs = append(outs, outcome{cond: ncond, st: post, pv: after(pv), dead: pv != nil && recovers})
 		if mayPanic {
 			var post2 *State
 			ex.withCond(acond, st, func() { post2 = ex.havocAssignsAbrupt(cc, m, st) })
@@ -373,7 +385,7 @@ func (ex *Exec) runDeferred(d *ssa.Defer, cond string, st *State, pv *Val) []out
 					ex.assumeHere(ex.clauseTerm(cl, m2, post2, st, false))
 				}
 			})
-			outs = append(outs, outcome{cond: acond, st: post2, pv: &npv})
+			outs = append(outs, outcome{cond: acond, st: post2, pv: &npv, dead: pv == nil && recovers})
 		}
 		return outs
 	}
@@ -462,7 +474,13 @@ func (ex *Exec) unwind(k int, start outcome) []outcome {
 	for i := k - 1; i >= 0; i-- {
 		var next []outcome
 		for _, o := range cur {
-			next = append(next, ex.runDeferred(ex.deferred[i], o.cond, o.st, o.pv)...)
+			outs := ex.runDeferred(ex.deferred[i], o.cond, o.st, o.pv)
+			if o.dead {
+				for k := range outs {
+					outs[k].dead = true
+				}
+			}
+			next = append(next, outs...)
 			if len(ex.unsupported) > 0 {
 				return nil
 			}
@@ -474,11 +492,12 @@ func (ex *Exec) unwind(k int, start outcome) []outcome {
 
 // runDefersNormal: the RunDefers instruction on a returning path.
 func (ex *Exec) runDefersNormal(in *ssa.RunDefers) {
-	if len(ex.deferred) == 0 {
+	nd := ex.applicableDefers()
+	if nd == 0 {
 		return
 	}
 	b := in.Block()
-	outs := ex.unwind(len(ex.deferred), outcome{cond: ex.curCond(), st: ex.st})
+	outs := ex.unwind(nd, outcome{cond: ex.curCond(), st: ex.st})
 	if len(ex.unsupported) > 0 {
 		return
 	}
@@ -501,25 +520,34 @@ func (ex *Exec) runDefersNormal(in *ssa.RunDefers) {
 
 // finalAbrupt: the function is left by a panic.
 func (ex *Exec) finalAbrupt(o outcome, pos token.Pos) {
+	if o.dead {
+		ex.deadCtx++
+		defer func() { ex.deadCtx-- }()
+	}
 	if ex.parent != nil {
 		ex.abrupts = append(ex.abrupts, abruptPt{cond: o.cond, st: o.st, pv: *o.pv, pos: pos})
 		return
 	}
-	if ex.con == nil || len(ex.con.EnsuresAbrupt) == 0 {
+	if ex.con == nil {
 		return
 	}
+	if len(ex.con.EnsuresAbrupt) == 0 && !ex.con.Flags["maypanic"] {
+		return // callers do not consider a panic of this function
+	}
 	ex.withCond(o.cond, o.st, func() {
+		defer ex.frameCheck(pos) // callers apply the frame to the panicking exit as well
 		m := ex.resultMap(nil)
 		m["panicValue"] = *o.pv
 		for _, p := range ex.con.ExitVars {
 			// a local named in exitvars: usable on abrupt exits if it is assigned exactly once
-			if v := ex.uniqueDef(p.Name); v != nil {
-				if val, ok := ex.vals[v]; ok {
-					m[p.Name] = val
-				}
+			if val, ok := ex.exitVarVal(p.Name); ok {
+				m[p.Name] = val
 			}
 		}
 		for i, cl := range ex.con.EnsuresAbrupt {
+			if cl.Assumed {
+				continue
+			}
 			lbl := cl.Label
 			if lbl == "" {
 				lbl = fmt.Sprintf("%d", i+1)
@@ -574,6 +602,10 @@ func (ex *Exec) finishAbrupt() {
 // recoveredReturn: a deferred function recovered; the function returns through its recover block
 // (named results as they are now) and owes its ordinary postconditions.
 func (ex *Exec) recoveredReturn(o outcome) {
+	if o.dead {
+		ex.deadCtx++
+		defer func() { ex.deadCtx-- }()
+	}
 	rb := ex.fn.Recover
 	if rb == nil {
 		// no named results: zero values are returned
@@ -610,13 +642,13 @@ var _ = types.Typ
 // may have happened, and the abrupt reading of unknown code applies.
 func (ex *Exec) havocAssignsAbrupt(cc *Contract, m map[string]Val, pre *State) *State {
 	if len(cc.Assigns) == 0 {
-		return ex.jsEffect2(pre, true)
-	}
-	for _, cl := range cc.Assigns {
-		if cl.Desig == "all" {
+		if cc.Flags["script"] {
 			return ex.jsEffect2(pre, true)
 		}
+		return ex.jsEffect3(pre, true, true)
 	}
+	ex.abruptFrame = true
+	defer func() { ex.abruptFrame = false }()
 	return ex.havocAssigns(cc, m, pre)
 }
 
@@ -636,4 +668,50 @@ func (ex *Exec) uniqueDef(name string) ssa.Value {
 		}
 	}
 	return found
+}
+
+// exitVarVal: the value of a source variable at an exit that no definition dominates (abrupt exits,
+// the recover block): a variable bound exactly once, or an address-taken local (its current content).
+func (ex *Exec) exitVarVal(name string) (Val, bool) {
+	if v := ex.uniqueDef(name); v != nil {
+		if val, ok := ex.vals[v]; ok {
+			return val, true
+		}
+	}
+	var al *ssa.Alloc
+	for _, b := range ex.fn.Blocks {
+		for _, in := range b.Instrs {
+			if d, ok := in.(*ssa.DebugRef); ok && d.IsAddr {
+				if id, ok := d.Expr.(interface{ String() string }); ok && id.String() == name {
+					if a, ok := d.X.(*ssa.Alloc); ok {
+						if al != nil && al != a {
+							return Val{}, false
+						}
+						al = a
+					}
+				}
+			}
+		}
+	}
+	if al == nil {
+		// the variable lives in memory (captured by a closure): its cell is the Alloc named after it
+		for _, b := range ex.fn.Blocks {
+			for _, in := range b.Instrs {
+				if a, ok := in.(*ssa.Alloc); ok && a.Comment == name {
+					if al != nil && al != a {
+						return Val{}, false
+					}
+					al = a
+				}
+			}
+		}
+	}
+	if al == nil {
+		return Val{}, false
+	}
+	av, ok := ex.vals[al]
+	if !ok {
+		return Val{}, false
+	}
+	return ex.env.loadVal(ex.st, av, deref(al.Type())), true
 }
